@@ -385,16 +385,20 @@ class Cluster(object):
                     code = perr
                 data = b""
                 hw = -1
+                first_len = 0
                 if code == 0:
                     hw = p.log_end
                     if pp["offset"] < p.log_start or pp["offset"] > p.log_end:
                         code = E_OFFSET_OUT_OF_RANGE
                     else:
-                        data = p.serialise(pp["offset"], 1 if v >= 2 else 0)[: max(pp["max_bytes"], 0)]
+                        full = p.serialise(pp["offset"], 1 if v >= 2 else 0)
+                        if len(full) >= 12:
+                            first_len = 12 + struct.unpack(">i", full[8:12])[0]
+                        data = full[: max(pp["max_bytes"], 0)]
                 if code != 0:
                     errors = True
                 total += len(data)
-                detail[(topic, pid)] = (code, pp["offset"], pp["max_bytes"], len(data))
+                detail[(topic, pid)] = (code, pp["offset"], pp["max_bytes"], len(data), first_len)
                 plist.append((pid, code, hw, data))
             out_topics.append((t["topic"], plist))
         return rp.r_fetch(req["correlation_id"], out_topics, version=v), total, errors, detail
@@ -444,6 +448,8 @@ class Cluster(object):
                     else:
                         offs = [p.log_start]
                     offs = offs[: max(pp["max_offsets"], 0)]
+                info["offsets_answer"] = list(offs)
+                info["offsets_code"] = code
                 plist.append((pp["partition"], code, offs))
             out_topics.append((t["topic"], plist))
         return rp.r_list_offsets(req["correlation_id"], out_topics)
